@@ -97,13 +97,34 @@ def atomicRun : List TEv := [
   ⟨5300000, .acq 2⟩, ⟨5300000, .flush 2⟩, ⟨5300000, .send 2 0 2 [68, 10]⟩,
   ⟨5400000, .arrive 0 (some 2) [100, 10]⟩, ⟨5400000, .recv 2 (.data [100, 10])⟩, ⟨5400000, .rel 2⟩, ⟨5400000, .ret 2 (.ok [[100]])⟩]
 
+def rq (cmd : Bytes) : Req := ⟨cmd, true, 0, 0⟩
+/-- caller 3 finds the connection closed, announces it, fails; 3.1 s later it reconnects (callbacks 0 and 1 run, 1 asks
+to be removed) and communicates; then a silent command: two empty recvs, time-out -/
+def healRun : List TEv := [
+  ⟨5000000, .call 3 .comm [rq [68, 10]]⟩, ⟨5000000, .chk 3 false⟩, ⟨5000001, .now 3 5000001⟩, ⟨5000002, .now 3 5000002⟩,
+  ⟨5000002, .connect 3 true true⟩, ⟨5000003, .isconn 3 true⟩, ⟨5000004, .acq 3⟩, ⟨5000004, .flush 3⟩,
+  ⟨5000004, .send 3 0 0 [68, 10]⟩, ⟨5000004, .devclose 0⟩, ⟨5000005, .recv 3 .closed⟩, ⟨5000005, .hclose 3⟩,
+  ⟨5000006, .isconn 3 false⟩, ⟨5000006, .rel 3⟩, ⟨5000006, .ret 3 .err⟩,
+  ⟨8100000, .call 3 .comm [rq [69, 10]]⟩, ⟨8100000, .chk 3 false⟩, ⟨8100001, .now 3 8100001⟩, ⟨8100002, .now 3 8100002⟩,
+  ⟨8100002, .connect 3 true true⟩, ⟨8100003, .isconn 3 true⟩, ⟨8100003, .cb 3 0 true⟩, ⟨8100003, .cb 3 1 false⟩,
+  ⟨8100004, .acq 3⟩, ⟨8100004, .flush 3⟩, ⟨8100004, .send 3 1 1 [69, 10]⟩,
+  ⟨8200000, .arrive 1 (some 1) [101]⟩, ⟨8200000, .recv 3 (.data [101])⟩, ⟨8250000, .arrive 1 (some 1) [10]⟩,
+  ⟨8250000, .recv 3 (.data [10])⟩, ⟨8250000, .rel 3⟩, ⟨8250000, .ret 3 (.ok [[101]])⟩,
+  ⟨9000000, .call 3 .comm [rq [83, 10]]⟩, ⟨9000000, .chk 3 true⟩, ⟨9000000, .acq 3⟩, ⟨9000000, .flush 3⟩,
+  ⟨9000000, .send 3 1 2 [83, 10]⟩, ⟨10000001, .recv 3 .empty⟩, ⟨11000002, .recv 3 .empty⟩, ⟨11000003, .rel 3⟩,
+  ⟨11000003, .ret 3 .err⟩]
+
 /-! ## the transaction model: full statements, and what is proved of them
 
-A run is accepted by the model iff `exec init evs` is defined.  The full clauses quantify over ALL accepted runs (all
-schedules, any number of callers, all device behaviours).  They are kept here as statements; what is PROVED below are
-the step-level facts (`…_partial`) from which each follows by induction over the run together with the control-flow
-invariants listed in design_notes/C16.md — that induction is not done.  On the implementation side every clause is
-judged by its monitor on every recorded run, and every recorded run is replayed through `exec`. -/
+A run is accepted by the model iff `exec init evs` is defined.  The clauses quantify over ALL accepted runs (all
+schedules, any number of callers, all device behaviours, all non-decreasing clocks).  Proved below for all accepted runs:
+`lock_exclusive`, `multicomm_atomic`, `stale_discarded_run`, `reply_pairing_run`, `reply_own_ret`, `delays_honoured_run`,
+`delays_honoured_return`, `fails_within_timeout_run`, `state_visible_run`, `reconnect_rate_limited` (under
+`AttemptsAtomic`), `callbacks_once_run`.  The `*_statement` definitions keep the clauses in the exact form of the
+monitors (windows between sends and returns); the theorems state the same facts at the events where they arise — the
+reformulation is not proved equivalent.  `state_visible_fails`: one clause is false for the code that exists.
+On the implementation side every clause is judged by its monitor on every recorded run, and every recorded run is
+replayed through `exec`. -/
 
 def Accepted (cfg : Cfg) (cbs : List Nat) (evs : List TEv) : Prop := (exec { cfg := cfg, cbsReg := cbs } evs).isSome = true
 
@@ -716,6 +737,30 @@ theorem callbacks_once_partial (s s' : State) (t c n n' : Nat) (rest : List Nat)
     | nil => exact absurd rfl hr
     | cons a b => cases keep <;> simp [State.setC]
   · simp at h
+
+/-! ## non-vacuity of the run-level theorems: `atomicRun` and `healRun` are accepted and meet the hypotheses -/
+
+example : Accepted findingCfgA [0, 1] healRun := by unfold Accepted; decide
+-- state_visible_run: closed recv at 10, return at 14 — the update is at 12
+example : evAt healRun 10 = some (.recv 3 .closed) ∧ evAt healRun 14 = some (.ret 3 .err) ∧
+    evAt healRun 12 = some (.isconn 3 false) := by decide
+-- reconnect_rate_limited: attempts at 4 and 19, the second on demand; the run has atomic attempts (monitor form)
+example : connectAt healRun 4 ≠ none ∧ connectAt healRun 19 = some true ∧ attemptsAtomicB healRun = true := by decide
+-- callbacks_once_run: reconnect at 19, announced at 20, after the close at 11; callbacks 0 and 1 at 21 and 22
+example : evAt healRun 19 = some (.connect 3 true true) ∧ evAt healRun 20 = some (.isconn 3 true) ∧
+    isHclose (evAt healRun 11) = true ∧ whoAt healRun 21 = some 3 ∧ countOf healRun 3 20 21 = 0 ∧
+    countOf healRun 3 20 22 = 1 ∧ registeredAt [0, 1] healRun 20 = [0, 1] ∧
+    evAt healRun 22 = some (.cb 3 1 false) := by decide
+-- reply_own_ret / stale_discarded_run: the call returning at 31
+example : evAt healRun 31 = some (.ret 3 (.ok [[101]])) ∧ sendAt healRun 25 = some 3 ∧
+    arrivedIn healRun 1 none 25 31 = [101, 10] := by decide
+-- fails_within_timeout_run: empty recvs at 37 and 38 after the send at 36
+example : evAt healRun 37 = some (.recv 3 .empty) ∧ sendAt healRun 36 = some 3 ∧ timeAt healRun 36 = 9000000 ∧
+    timeAt healRun 38 = 11000002 := by decide
+-- delays_honoured_run / _return and multicomm_atomic: the multicomm of caller 1 in `atomicRun` (sends at 9 and 18)
+example : evAt atomicRun 0 = some (.call 1 .multi [⟨[65, 10], true, 0, 0⟩, ⟨[87, 10], false, 0, 200000⟩]) ∧
+    sendAt atomicRun 9 = some 1 ∧ sendAt atomicRun 18 = some 1 ∧ evAt atomicRun 23 = some (.ret 1 (.ok [[97]])) ∧
+    (sendsIn atomicRun 1 0 18).length = 1 ∧ timeAt atomicRun 18 + 200000 ≤ timeAt atomicRun 23 := by decide
 
 /-! ## recorded finding: a stale `is_connected = True` from the read wrapper (C16:state_not_overwritten) -/
 
